@@ -108,6 +108,32 @@ type c11Env struct {
 	enc    *json.Encoder
 	decIn  bytes.Buffer
 	dec    *json.Decoder
+	// writers handed to calls of this history (DebugWith / DebugDOT); a call that has returned must not be
+	// written to any more
+	writers []*c11Writer
+}
+
+// c11Writer records what is written to it and whether it was closed.
+type c11Writer struct {
+	n      int
+	closed bool
+}
+
+func (w *c11Writer) Write(p []byte) (int, error) { w.n += len(p); return len(p), nil }
+func (w *c11Writer) Close() error                { w.closed = true; return nil }
+
+func (e *c11Env) writer() *c11Writer {
+	w := &c11Writer{}
+	e.writers = append(e.writers, w)
+	return w
+}
+
+func (e *c11Env) writerState() string {
+	var sb strings.Builder
+	for _, w := range e.writers {
+		fmt.Fprintf(&sb, "%d/%v ", w.n, w.closed)
+	}
+	return sb.String()
 }
 
 func newC11Env() *c11Env {
@@ -200,6 +226,38 @@ func c11Calls() []c11Call {
 			return out
 		}},
 		{"Marshal+Debug", func(e *c11Env) string { return r2(json.MarshalWithOption(val, discard)) }},
+		{"Marshal+Debug (no writer named)", func(e *c11Env) string { return r2(json.MarshalWithOption(val, json.Debug())) }},
+		{"Marshal+Debug (no writer named) of a value whose marshaler panics, recovered", func(e *c11Env) string {
+			var out string
+			if p, msg := util.Safe(func() {
+				out = r2(json.MarshalWithOption(map[string]interface{}{"a": 1, "p": c11Panic{}}, json.Debug()))
+			}); p {
+				out = "panic:" + util.ErrClass(msg)
+			}
+			return out
+		}},
+		{"Marshal+DebugWith(writer)", func(e *c11Env) string {
+			w := e.writer()
+			return r2(json.MarshalWithOption(val, json.Debug(), json.DebugWith(w))) + fmt.Sprintf(" dump:%v", w.n > 0)
+		}},
+		{"Marshal+DebugDOT(writer), without Debug", func(e *c11Env) string {
+			w := e.writer()
+			return r2(json.MarshalWithOption(val, json.DebugDOT(w))) + fmt.Sprintf(" dot:%d closed:%v", w.n, w.closed)
+		}},
+		{"Marshal+Debug+DebugDOT(writer)", func(e *c11Env) string {
+			w := e.writer()
+			return r2(json.MarshalWithOption(val, json.Debug(), json.DebugDOT(w))) + fmt.Sprintf(" dot:%v closed:%v", w.n > 0, w.closed)
+		}},
+		{"Marshal+DebugWith(writer) of a value whose marshaler panics, recovered", func(e *c11Env) string {
+			w := e.writer()
+			var out string
+			if p, msg := util.Safe(func() {
+				out = r2(json.MarshalWithOption(map[string]interface{}{"a": 1, "p": c11Panic{}}, json.Debug(), json.DebugWith(w)))
+			}); p {
+				out = "panic:" + util.ErrClass(msg)
+			}
+			return out + fmt.Sprintf(" dump:%v", w.n > 0)
+		}},
 		{"Marshal+UnorderedMap", func(e *c11Env) string {
 			return r2(json.MarshalWithOption(map[string]int{"only": 1}, json.UnorderedMap()))
 		}},
@@ -441,8 +499,15 @@ func c11SetPool(f func(n int) int) {
 const c11DoublePut = " !! an object was put into a pool that already held it"
 
 func c11RunCall(cl *c11Call, e *c11Env) (out string) {
+	earlier := len(e.writers)
+	before := e.writerState()
 	if p, msg := util.Safe(func() { out = cl.run(e) }); p {
 		out = "PANIC:" + util.ErrClass(msg)
+	}
+	// the writers of EARLIER calls of the history have received nothing and have not been closed by this call
+	now := e.writerState()
+	if cut := len(before); len(now) < cut || now[:cut] != before {
+		out += fmt.Sprintf(" !! this call wrote to / closed a writer that was handed to an earlier call (%d earlier writers: %s-> %s)", earlier, before, now[:len(before)])
 	}
 	// generic pool invariant (the pool shim counts violations): two later Gets would hand the object to two users
 	if json.VerifPoolDoublePuts() > 0 {
